@@ -38,7 +38,7 @@ CHECKS = {
  "C13": dict(
    engine="histsim",
    technique="deterministic simulation: seeded histories of phase/unphase applications over VCFs of arbitrary call shapes against a record-level model of the file with phase stripped",
-   level_text="Seeded exploration: unphase is applied inside histories (after 0..n phase runs, twice in a row) to generated VCFs with haploid, polyploid, missing, partially missing, mixed-separator and GT-less records, records without ALT, headers without (some) contig lines or without declarations of the phase tags, plain and bgzipped; output compared field by field with an independent pysam-level model and with the GT text; plus a regression corpus.",
+   level_text="Seeded exploration: unphase is applied inside histories (after 0..n phase runs, twice in a row) to generated VCFs with haploid, polyploid, missing, partially missing, mixed-separator and GT-less records, records without ALT, headers without (some) contig lines, without declarations of the phase tags or with declarations no record uses, plain and bgzipped; output compared field by field with an independent pysam-level model and with the GT text; plus a regression corpus.",
    level_note="Trusts pysam/htslib parsing of both files and the generator's notion of 'well-formed VCF' (everything htslib reads without error).",
    design_ref="DESIGN.md §4 C13"),
  "C17": dict(
